@@ -259,6 +259,9 @@ type Op struct {
 	// MapCols != nil: the proposed row is given as map[string]interface{} through Model(&T{}) and
 	// carries only the key (when non-zero), the unique column and these columns
 	MapCols []string
+	// OCWhere: the rule carries OnConflict.Where `recs.age < excluded.age` - the stored row is only
+	// updated when the proposed age is higher (a conditional upsert)
+	OCWhere bool
 	// first-or-*: the chain starts with Unscoped() (soft-deleted rows are matched, and written)
 	Unscoped bool
 	// first-or-*
@@ -291,10 +294,14 @@ func (o Op) String() string {
 	case "saveslice":
 		return fmt.Sprintf("Save(&[]T%+v)", o.Vs)
 	case "upsert":
-		if o.MapCols != nil {
-			return fmt.Sprintf("Model(&T{}).Create(map of %+v with columns id,code,%v) OnConflict{%s %v}", o.V, o.MapCols, o.Rule, o.Subset)
+		w := ""
+		if o.OCWhere {
+			w = " WHERE recs.age < excluded.age"
 		}
-		return fmt.Sprintf("Create(%+v) OnConflict{%s %v}", o.V, o.Rule, o.Subset)
+		if o.MapCols != nil {
+			return fmt.Sprintf("Model(&T{}).Create(map of %+v with columns id,code,%v) OnConflict{%s %v%s}", o.V, o.MapCols, o.Rule, o.Subset, w)
+		}
+		return fmt.Sprintf("Create(%+v) OnConflict{%s %v%s}", o.V, o.Rule, o.Subset, w)
 	}
 	s := o.Kind
 	if o.Unscoped {
@@ -493,6 +500,9 @@ func run(d *testdb.DB, kind int, o Op, v variant) Outcome {
 			}
 			oc = clause.OnConflict{Columns: []clause.Column{{Name: strings.TrimPrefix(o.Rule, "assign-")}}, DoUpdates: clause.Assignments(am)}
 		}
+		if o.OCWhere {
+			oc.Where = clause.Where{Exprs: []clause.Expression{clause.Expr{SQL: "recs.age < excluded.age"}}}
+		}
 		if o.MapCols != nil {
 			mv := map[string]interface{}{"code": o.V.Code}
 			if o.V.ID != 0 {
@@ -684,6 +694,12 @@ func expect(m *Model, o Op) (exp Outcome) {
 			target = byID
 		}
 		t := *target
+		if o.OCWhere && o.Rule != "nothing-id" {
+			// NULL on either side makes the condition unknown: no update
+			if t.Nulls&nullAge != 0 || vNulls&nullAge != 0 || !(t.Age < v.Age) {
+				return Outcome{RowsAffected: 0, RAValid: true}
+			}
+		}
 		switch o.Rule {
 		case "nothing-id":
 			return Outcome{RowsAffected: 0, RAValid: true}
@@ -1114,6 +1130,9 @@ func genOp(t *rapid.T, m *Model) Op {
 				}
 			}
 		}
+		if o.Rule != "nothing" && o.Rule != "nothing-id" {
+			o.OCWhere = rapid.IntRange(0, 3).Draw(t, "ocwhere") == 0
+		}
 		if rapid.IntRange(0, 3).Draw(t, "asmap") == 0 {
 			o.MapCols = []string{}
 			mask := rapid.IntRange(0, 7).Draw(t, "mapcols")
@@ -1236,6 +1255,9 @@ func TestC16(t *testing.T) {
 			classes["op:"+o.Kind] = true
 			if o.Kind == "upsert" {
 				classes["rule:"+o.Rule] = true
+				if o.OCWhere {
+					classes["upsert:conditional(OnConflict.Where)"] = true
+				}
 				if o.MapCols != nil {
 					classes["upsert:map-value"] = true
 					if len(o.MapCols) < 3 {
